@@ -307,7 +307,7 @@ PROPS = {
         'assumptions': ['Mode::with_extensions only', 'two fixed option tables'],
     },
     'C02': {
-        'v_units': ['cmdsearch', 'looplevel'],
+        'v_units': ['cmdsearch', 'looplevel', 'whileloop'],
         'k_units': ['loopcount'],
         'level': 'other',
         'explanation': (
@@ -323,14 +323,21 @@ PROPS = {
             'execution environment and otherwise divert with count = min(n, enclosing loops) - 1, from a contract of Stack::loop_count that '
             'Kani checks on the real function (bounded: every stack of <= 3 frames quick / 4 thorough over six frame kinds, any max_count): '
             'the enclosing loops are counted from the innermost frame outwards up to the first subshell, dot-script, trap or init-file frame. '
+            '(3) Unit whileloop (Verus): how while / until loops react (yash-semantics/src/command/compound_command/while_loop.rs, async '
+            'stripped, command execution an opaque call whose results are recorded in a ghost log): Loop::iterate goes on while condition and '
+            'body go on normally and hands on the FIRST divert that comes out of either, unchanged - none is swallowed; Loop::execute ends on '
+            'the first result that is neither normal nor a continue of this very loop (which starts the next round), or on a false condition, '
+            'and hands on exactly that result with one break / continue level taken off (Break{0} ends the loop normally, Break{n} becomes '
+            'Break{n-1}, Continue{n} becomes Continue{n-1}, return / exit / interrupt pass through). '
             'NOT decided: everything else C02 says - which commands run in which order with which $?, and-or lists, pipelines, negation, '
-            'if/while/for/case, functions and return, the decoding of Break/Continue diverts by the loops (async executors), the $PATH walk '
+            'if/for/case, functions and return, the decoding of Break/Continue diverts by for loops, the exit status of loops, the $PATH walk '
             'itself (search_path: iterator adapters over strings, assumed), Env::builtin (availability under posixly-correct / portable).'),
         'trusted_base': ['Verus 0.2026.09.13 + Z3', 'Kani 0.68.0 + CBMC 6.11', '/verif/tools/vextract.py, /verif/tools/kunit.py'],
         'assumptions': [
             'unit cmdsearch: the methods of ClassifyEnv / PathEnv answer according to ghost views builtin_of / function_of / path_hit (implementor obligation, not verified); search_path is external_body (returns path_hit, leaves the environment alone); str::contains(char), CString::default / new are opaque helpers; Builtin / Function reduced to what the search reads; the raw identifier r#type is renamed (Verus aborts on it); derived PartialEq of Type is structural',
             'unit looplevel: Stack::loop_count is external_body with the contract the Kani unit loopcount checks (bounded); NonZeroUsize::get returns the non-zero number; ExitStatus::SUCCESS = ExitStatus(0); Field and trap::Condition are placeholders',
             'unit loopcount (Kani): Frame::Builtin frames are not among the generated frames',
+            'unit whileloop: List::execute and evaluate_condition are external_body (any result, appended to a ghost log in the reduced Env); `?` on ControlFlow through assumed contracts of Try::branch / FromResidual::from_residual; await points dropped; termination not claimed',
         ],
     },
     'C05': {
